@@ -34,7 +34,8 @@ def generate(rng, tier):
         if sum(mask) == 0:
             mask[rng.randrange(nvox)] = 1
         out.append(dict(kind='volume', shape=shape, mask=mask, radius=rng.choice(RADII), thresh=rng.choice(THRESH),
-                        mask_dtype=rng.choice(['int', 'bool', 'float'])))
+                        mask_dtype=rng.choice(['int', 'bool', 'float']),
+                        mask_layout=rng.choice(['C', 'C', 'F', 'T', 'strided'])))
     for _ in range(n // 2):
         shape = [rng.randint(2, 4) for _ in range(3)]
         nvox = shape[0] * shape[1] * shape[2]
@@ -63,7 +64,17 @@ def mask_array(c):
     if c.get('mask_dtype') == 'bool':
         return m.astype(bool)
     if c.get('mask_dtype') == 'float':
-        return m.astype(float)
+        m = m.astype(float)
+    # the same logical mask in other memory layouts (seeded change C19-m5): Fortran order, a transposed view, a strided view
+    lay = c.get('mask_layout', 'C')
+    if lay == 'F':
+        m = np.asfortranarray(m)
+    elif lay == 'T':
+        m = np.ascontiguousarray(m.transpose(2, 1, 0)).transpose(2, 1, 0)
+    elif lay == 'strided':
+        big = np.zeros(tuple(2 * d for d in m.shape), dtype=m.dtype)
+        big[::2, ::2, ::2] = m
+        m = big[::2, ::2, ::2]
     return m
 
 
